@@ -20,6 +20,8 @@ import Ptn.C10.TruncValue
 import Ptn.C10.TruncValueDemo
 import Ptn.C10.LevelRun
 import Ptn.C10.LevelFlatRun
+import Ptn.C10.LevelExists
+import Ptn.C10.RecExists
 /-! Property theorems for C10 (selection rule of the singular-value truncation).  Only property
 theorems and non-vacuity examples live here; helper lemmas are in `Lemmas.lean`, the
 specification vocabulary (`Desc`, `NonNeg`, `survives`, `Fits`, `capMin`, `renormFactor`) in
@@ -1174,5 +1176,144 @@ example : ∃ (v' : VNet Int) (p : Nat × Nat), p ∈ v0.bonds ∧ (∀ σ, VNet
   exact ⟨v', p, hp, hval, all, by simpa using a1, a7, a8⟩
 
 end level_flat
+
+section level_exists
+open Ptn.C02 Ptn.C03 Ptn.Ein NodeS
+variable {R : Type} [CommSemiring R]
+
+/-- **`truncate_node(n)` without the recursive calls: the run EXISTS and computes the flat form (builder B66).**  `t` a
+well-formed, label-consistent state of the structural model, `v` a well-formed valued network related to it, the temporary
+identifiers unused and distinct (`TempOK`), and the model's `truncateNodeStep` (first loop, `contract_all_children(n)`,
+third loop `truncLoop3`) succeeds with result `t'`.  Contract of the external routines (`Lr66Contract`, a hypothesis, for
+every state the first loop reaches and every child `c` of `n` not yet treated): the two fresh labels of the identity
+insertion have the dimension of the bond `c - n`, and a two-leg tensor `Π_c` with an exact factorisation over a new bond
+of dimension `kdim c` along the legs of `insert_projection_operator_and_conjugate` is delivered.  Then there are: the
+value-level history of the first loop over EXACTLY the children of `n` in order (`Lr54LevelRun`, prefix `[.access n]`,
+agreeing with the model's `truncLoop1`), followed by the simulated contractions of the second and the THIRD loop
+(`lr66Tail`), ending in the very state `t'` the model returns with a related well-formed network `v'`; `t'` has the
+structure and root of `t`; and `v'.value` is the ORIGINAL network with `Π_c` on every child bond at once (flat record
+of `truncate_node_level_flat_value`), the value of `v` being the plain record. -/
+theorem truncate_node_run_value (dim : Nat → Nat) (e : Label → Nat) {t t' : TTN} {g : LegMap} {v : VNet R} {n : Id}
+    {ids : TTN.TempIds} {kdim : Id → Nat} (h : t.WF) (hl : t.LWF) (hv : v.WF) (hs : RSim dim e g t v)
+    (hok : TempOK t.S ids) (hstep : t.truncateNodeStep n ids kdim = some t')
+    (hO : ∀ es tm gm vm c cch, Lr54LevelRun dim e n ids kdim [.access n] t g v es tm gm vm →
+      t.S c = some (some n, cch) → c ∉ es.map (·.c) → Lr66Contract dim e n ids (kdim c) tm gm vm c) :
+    ∃ node, ∃ es : List (Lr54Entry R), ∃ t1 g1 v1 g' v', ∃ all : List (Ins Nat R),
+      t.N n = some node ∧ es.map (·.c) = node.children ∧
+      Lr54LevelRun dim e n ids kdim [.access n] t g v es t1 g1 v1 ∧
+      TTN.truncLoop1 t n ids kdim node.children = some t1 ∧
+      SimRun dim e t1 g1 v1 (lr66Tail n ids node.children) t' g' v' ∧
+      t'.WF ∧ t'.LWF ∧ v'.WF ∧ RSim dim e g' t' v' ∧ t'.S = t.S ∧ t'.root = t.root ∧
+      all.map Ins.Pm = es.map (·.Pi) ∧ all.map Ins.a' = es.map (·.a) ∧
+      (∀ i ∈ all, i.b' = i.a' + 1) ∧
+      (∀ i ∈ all, DependsOn (fun l => l = i.a' ∨ l = i.b') i.Pm) ∧
+      (∀ i ∈ all, i.plain ∈ v.bonds) ∧
+      (∀ σ, v.value dim σ =
+        netValue dim (lf62Erase v.bonds all ++ all.map Ins.plain) (v.ids.map v.tens) σ) ∧
+      ∀ σ, v'.value dim σ =
+        netValue dim (lf62Erase v.bonds all ++ all.flatMap Ins.cut) (all.map Ins.Pm ++ v.ids.map v.tens) σ := by
+  obtain ⟨node, es, t1, g1, v1, g', v', hN, hes, hr, h1, htail, w', l', vw', s', hS, hR⟩ :=
+    lr66_step_exists dim e h hl hv hs hok hstep hO
+  obtain ⟨w1, l1, vw1, s1, _, _⟩ := lr54_level_core dim e h hl hv hs hr
+  obtain ⟨_, _, _, _, _, _, _, valT⟩ := structural_history_preserves_value dim e w1 l1 vw1 s1 htail
+  have hn : n ∈ v.ids := (hs.ids n).2 (by rw [hN]; simp)
+  have hc : ∀ x ∈ es, x.c ∈ v.ids := by
+    intro x hx
+    have hxc : x.c ∈ node.children := by rw [← hes]; exact List.mem_map_of_mem hx
+    obtain ⟨cch, e2⟩ := h.str.down n _ _ x.c (TTN.S_eq hN) hxc
+    obtain ⟨nd, hnd, _⟩ := TTN.N_of_S e2
+    exact (hs.ids x.c).2 (by rw [hnd]; simp)
+  obtain ⟨all, a1, a2, a3, a4, _, _, a7, _, a9, a10⟩ := truncate_node_level_flat_value dim e
+    (by intro op hop; simp at hop; exact ⟨n, hop⟩) h hl hv hs hr hn hc
+  exact ⟨node, es, t1, g1, v1, g', v', all, hN, hes, hr, h1, htail, w', l', vw', s', hS, hR, a1, a2, a3, a4, a7, a9,
+    fun σ => (valT σ).trans (a10 σ)⟩
+
+/-- the value chain of a recursion run (`Lr66RecRun`): every node step computes the flat record on the network before it
+(`truncate_node_level_flat_value`; the contractions of the second and third loop keep the value).  `_partial`: the
+records are relative to the network before EACH step, not one record on the original network (the tensors of the later
+networks are contraction results of the earlier ones; their identification is not proved). -/
+theorem truncate_recursion_value_chain_partial (dim : Nat → Nat) (e : Label → Nat) {ids : TTN.TempIds}
+    {kdim : Id → Nat} {t t' : TTN} {g g' : LegMap} {v v' : VNet R} {l : List (Id × Id)}
+    (h : t.WF) (hl : t.LWF) (hv : v.WF) (hs : RSim dim e g t v)
+    (hr : Lr66RecRun dim e ids kdim t g v l t' g' v') : Lr66ValChain dim v l v' := by
+  induction hr with
+  | nil t g v => exact .nil (fun _ => rfl)
+  | @step t t1 t2 t' g g1 g2 g' v v1 v2 v' n node es rest hN hes hlev htail _ ih =>
+    obtain ⟨w1, l1, vw1, s1, _, _⟩ := lr54_level_core dim e h hl hv hs hlev
+    obtain ⟨_, _, w2, l2, vw2, s2, _, valT⟩ := structural_history_preserves_value dim e w1 l1 vw1 s1 htail
+    have hn : n ∈ v.ids := (hs.ids n).2 (by rw [hN]; simp)
+    have hc : ∀ x ∈ es, x.c ∈ v.ids := by
+      intro x hx
+      have hxc : x.c ∈ node.children := by rw [← hes]; exact List.mem_map_of_mem hx
+      obtain ⟨cch, e2⟩ := h.str.down n _ _ x.c (TTN.S_eq hN) hxc
+      obtain ⟨nd, hnd, _⟩ := TTN.N_of_S e2
+      exact (hs.ids x.c).2 (by rw [hnd]; simp)
+    obtain ⟨all, a1, a2, a3, a4, _, _, a7, _, a9, a10⟩ := truncate_node_level_flat_value dim e
+      (by intro op hop; simp at hop; exact ⟨n, hop⟩) h hl hv hs hlev hn hc
+    refine .step all node.children n ?_ a3 a4 a7 a9 (fun σ => (valT σ).trans (a10 σ)) (ih w2 l2 vw2 s2)
+    have e1 := congrArg List.length a1
+    have e2 := congrArg List.length hes
+    simp only [List.length_map] at e1 e2
+    omega
+
+/-- **`recursive_truncation` between its canonicalisations: the simulated run exists, cuts the bonds in the order
+`truncOrder`, and its value is a chain of flat records (builder B66).**  If the model's `recursiveTruncation` succeeds on
+a well-formed, label-consistent tree with a related well-formed valued network, and the external routines keep their
+contract in every state reached (`Lr66RecContract`, with the temporary identifiers `arithIds` of the model), then: the
+value-level history `Lr66RecRun` exists, its bond list IS `truncOrder t.S (|nodes| + 1) root` (by `truncOrder_perm` every
+non-root node exactly once with its parent), it ends in the state `t'` the model returns with a related well-formed
+network `v'`, `t'` has the structure and the root of `t`, and the values are linked by `Lr66ValChain`.  `_partial`: see
+`truncate_recursion_value_chain_partial`; the link to `recursive_truncation_value_telescope` needs ONE record on the
+original network. -/
+theorem recursive_truncation_run_value_partial (dim : Nat → Nat) (e : Label → Nat) {kdim : Id → Nat}
+    {t t' : TTN} {g : LegMap} {v : VNet R} (h : t.WF) (hl : t.LWF) (hv : v.WF) (hs : RSim dim e g t v)
+    (hrun : t.recursiveTruncation kdim = some t')
+    (hO : Lr66RecContract dim e (TTN.arithIds ((t.nodes.map (·.1)).foldl max 0 + 1)) kdim t g v) :
+    ∃ r g' v', t.root = some r ∧
+      Lr66RecRun dim e (TTN.arithIds ((t.nodes.map (·.1)).foldl max 0 + 1)) kdim t g v
+        (truncOrder t.S (t.nodes.length + 1) r) t' g' v' ∧
+      t'.WF ∧ t'.LWF ∧ v'.WF ∧ RSim dim e g' t' v' ∧ t'.S = t.S ∧ t'.root = t.root ∧
+      Lr66ValChain dim v (truncOrder t.S (t.nodes.length + 1) r) v' := by
+  unfold TTN.recursiveTruncation at hrun
+  cases hroot : t.root with
+  | none => simp [hroot, bind, Option.bind] at hrun
+  | some r =>
+    simp only [hroot, bind, Option.bind] at hrun
+    obtain ⟨g', v', rr, w', l', vw', s', hS, hR⟩ :=
+      lr66_rec_exists dim e _ kdim (t.nodes.length + 1) t t' g v r h hl hv hs (arithIds_ok t) hrun hO
+    exact ⟨r, g', v', rfl, rr, w', l', vw', s', hS, hR.trans hroot,
+      truncate_recursion_value_chain_partial dim e h hl hv hs rr⟩
+
+open Ptn.C02.SimDemo in
+/-- (degenerate) joint satisfiability of the hypotheses of `truncate_node_run_value`: the leaf `2` of the two-node network
+of `SimDemo` with the identifiers `arithIds` of the model; a leaf has no child, so the contract is never called and the
+run consists of no step (`es = []`); the value is unchanged.  A non-degenerate instance of `Lr66Contract` is NOT given. -/
+example : ∃ (v' : VNet Int), ∀ σ, VNet.value SimDemo.dim v' σ = VNet.value SimDemo.dim v0 σ := by
+  have hsome : (t0.truncateNodeStep 2 (TTN.arithIds ((t0.nodes.map (·.1)).foldl max 0 + 1)) (fun _ => 3)).isSome
+      = true := by decide
+  obtain ⟨tE, hstep⟩ := Option.isSome_iff_exists.mp hsome
+  obtain ⟨node, es, t1, g1, v1, g', v', all, hN, hes, hr, _, htail, _, _, _, _, _, _, a1, _, _, _, _, hplain, hval⟩ :=
+    truncate_node_run_value (R := Int) SimDemo.dim SimDemo.e t0_wf.1 t0_wf.2 v0_wf rsim0 (arithIds_ok t0) hstep
+      (by
+        intro es tm gm vm c cch _ hSc
+        obtain ⟨pp, pch, h2, hmem⟩ := t0_wf.1.str.up c 2 cch hSc
+        have : t0.S 2 = some (some 1, []) := by decide
+        rw [this] at h2
+        simp only [Option.some.injEq, Prod.mk.injEq] at h2
+        rw [← h2.2] at hmem
+        simp at hmem)
+  refine ⟨v', fun σ => ?_⟩
+  have hch : node.children = [] := by
+    have h1 := TTN.S_eq hN
+    have : t0.S 2 = some (some 1, []) := by decide
+    rw [this] at h1
+    simp only [Option.some.injEq, Prod.mk.injEq] at h1
+    exact h1.2.symm
+  have hes' : es = [] := by rw [hch] at hes; simpa using hes
+  have hall : all = [] := by rw [hes'] at a1; simpa using a1
+  rw [hval σ, hplain σ, hall]
+  simp
+
+end level_exists
 
 end Ptn.C10
